@@ -79,7 +79,7 @@ for pid in ALL:
             "replay_cmd_template": "./bin/ipcheck -replay {path}",
             "engine": "ipcheck",
             "level_claimed": {"category": "other", "text": text, "design_ref": ref},
-            "level_note": "Trusted base: Go type checker, go/ssa, VTA call graph (x/tools v0.29.0), summaries of external code listed in DESIGN.md §2.8. Decides the named structural clauses only; value-level clauses are listed as not decided in the evidence file.",
+            "level_note": "Trusted base: Go type checker, go/ssa, VTA call graph (x/tools v0.29.0), summaries of external code listed in DESIGN.md §2.8, and - only when an obligation is not discharged on the tree as written - the normalisation pre-pass of DESIGN.md §10 (a copy of the x/tools inliner plus function-literal flattening; semantics preserving; the evidence file lists every step it took). Decides the named structural clauses only; value-level clauses are listed as not decided in the evidence file.",
             "technique": tech,
         })
 na = [{"property_id": p, "reason": NA.get(p, NOT_BUILT)} for p in ALL if p not in CLAIMS]
@@ -91,7 +91,7 @@ m = {
  "engines": [{"name": "ipcheck", "path": "/verif/checker", "serves_properties": sorted(CLAIMS), "kind_free_text": "repository-specific static analyser over go/packages + go/ssa + VTA call graph; path-state, lockset, reachability, ownership, constant-table and dependence rules"}],
  "checks": checks,
  "not_applicable": na,
- "notes": "Static analysis only; nothing under /repo is executed. Genuine defects found are either repaired by fix: commits in /repo or listed in known_findings.json. thorough = quick + heavier rules + in-memory mutant self-test of the property's rules.",
+ "notes": "Static analysis only; nothing under /repo is executed. Two committed corpora exercise the checks both ways (./regress.sh): seeded/ = 100 independently produced breaking changes (all reported), neutral/ = 80 behaviour-preserving refactorings (none reported). Genuine defects found are either repaired by fix: commits in /repo or listed in known_findings.json. thorough = quick + heavier rules + in-memory mutant self-test of the property's rules.",
 }
 json.dump(m, open(os.path.join(os.path.dirname(os.path.abspath(__file__)), "MANIFEST.json"), "w"), indent=1)
 print("claimed:", sorted(CLAIMS), "n/a:", [x["property_id"] for x in na])
